@@ -58,7 +58,7 @@ RULE = (
     "at a random iteration or virtual time; a quarter of the scenarios are 'tail-only': unequal per-family address counts (1+3, 4+1, "
     "2+4 ...) in three list orders where only the last address of the longer family is reachable and all others fail in finite time "
     "(optionally behind a local_address with per-address bind errors); "
-    "oracle = registry of every socket the library created (open set vs returned socket) + order-independent model clauses: all "
+    "oracle = registry of every socket the library created (open set vs returned socket); a task.cancel() that returned True is never answered with a socket; + order-independent model clauses: all "
     "attempts failed => socket() was called once per resolved address; some resolved address is scripted reachable and, when "
     "local_address is given, at least one local address of its family can be bound (no EMFILE / k-th-call bind faults, nobody "
     "cancelled) => the call succeeds unless a 'never' attempt blocks the race under an infinite stagger delay; on success with "
